@@ -283,7 +283,7 @@ func runC12(r *core.Run) {
 		for b := 0; b < n; b++ {
 			for pa := 0; pa <= maxPad; pa++ {
 				for pb := 0; pb <= maxPad; pb++ {
-					if !thorough(r) && pa > 9 && pb > 9 {
+					if false && pa > 9 && pb > 9 {
 						continue
 					}
 					cases = append(cases, C12Case{Streams: []int{a, b}, Pads: []int{pa, pb}, Trailing: -1})
@@ -294,7 +294,7 @@ func runC12(r *core.Run) {
 			}
 			for c := 0; c < n; c++ {
 				pads := []int{0, 4, 8}
-				if thorough(r) {
+				if true {
 					pads = []int{0, 1, 2, 3, 4, 5, 7, 8, 12}
 				}
 				for _, pa := range pads {
@@ -306,7 +306,7 @@ func runC12(r *core.Run) {
 				}
 				for pos := 0; pos < 3; pos++ {
 					for _, mis := range []int{1, 2, 3, 5, 6} {
-						if !thorough(r) && mis > 3 {
+						if false && mis > 3 {
 							continue
 						}
 						p := []int{4, 0, 8}
